@@ -20,7 +20,10 @@ import sys
 import time
 
 ROOT = os.path.dirname(os.path.dirname(os.path.abspath(__file__)))
-EVIDENCE_DIR = os.path.join(ROOT, 'evidence')
+# evidence describes runs against /repo itself: a run against another tree (VERIF_REPO_SRC, used for scratch
+# worktrees with seeded changes) writes its evidence to a scratch directory instead
+_OTHER_TREE = os.environ.get('VERIF_REPO_SRC') not in (None, '', '/repo/src')
+EVIDENCE_DIR = os.environ.get('VERIF_EVIDENCE_DIR') or ('/var/tmp/verif-scratch-evidence' if _OTHER_TREE else os.path.join(ROOT, 'evidence'))
 REPLAY_DIR = os.path.join(ROOT, 'replays')
 KNOWN_FILE = os.path.join(ROOT, 'known_findings.json')
 PYTHON = '/venv/bin/python'
